@@ -5,7 +5,7 @@ p = '/verif/DESIGN.md'
 s = open(p).read()
 for r in ('3', '4'):
     t = subprocess.check_output(['python3', '/verif/tools/round_table.py', r]).decode().rstrip('\n')
-    block = '<!--R%s-->\n%s\n<!--/R%s-->' % (r, t, r)
+    block = '<!--R%s-->\n| id | change | result |\n|---|---|---|\n%s\n<!--/R%s-->' % (r, t, r)
     if '@ROUND%sTABLE@' % r in s:
         s = s.replace('@ROUND%sTABLE@' % r, block)
     else:
